@@ -24,6 +24,7 @@ import (
 	"context"
 	"encoding/json"
 	"fmt"
+	"math"
 	"os"
 	"os/exec"
 	"path/filepath"
@@ -40,6 +41,8 @@ import (
 	"github.com/blugelabs/bluge"
 	"github.com/blugelabs/bluge/index"
 	"github.com/blugelabs/bluge/index/mergeplan"
+	"github.com/blugelabs/bluge/search"
+	"github.com/blugelabs/bluge/search/aggregations"
 	segment "github.com/blugelabs/bluge_segment_api"
 	iceV1 "github.com/blugelabs/ice"
 	iceV2 "github.com/blugelabs/ice/v2"
@@ -72,6 +75,7 @@ type shape struct {
 	Nap        int
 	MinMerge   int
 	CloseDelay int // microseconds between "callers returned" and Close
+	Share      int // probe-shared-requests: 1 standard aggregations, 2 one SortOrder value, 4 aggregation definitions, 8 term query objects, 16 a boolean query object shared by the parallel requests
 	SlowRoot   int // microseconds slept in the verifTrace "root" seam (inside replaceRoot, i.e. inside every introduction)
 }
 
@@ -86,14 +90,14 @@ func (s shape) line() string {
 	if kind == "" {
 		kind = "run"
 	}
-	return fmt.Sprintf(kind+" mode=%s seed=%d w=%d b=%d d=%d r=%d s=%d q=%d p=%d dir=%s unsafe=%d ver=%d yield=%d stats=%d across=%d nap=%d minmerge=%d closedelay=%d slowroot=%d",
-		s.Mode, s.Seed, s.W, s.B, s.D, s.R, s.S, s.Q, s.P, s.Dir, b(s.Unsafe), s.Ver, s.Yield, s.Stats, b(s.Across), s.Nap, s.MinMerge, s.CloseDelay, s.SlowRoot)
+	return fmt.Sprintf(kind+" mode=%s seed=%d w=%d b=%d d=%d r=%d s=%d q=%d p=%d dir=%s unsafe=%d ver=%d yield=%d stats=%d across=%d nap=%d minmerge=%d closedelay=%d slowroot=%d share=%d",
+		s.Mode, s.Seed, s.W, s.B, s.D, s.R, s.S, s.Q, s.P, s.Dir, b(s.Unsafe), s.Ver, s.Yield, s.Stats, b(s.Across), s.Nap, s.MinMerge, s.CloseDelay, s.SlowRoot, s.Share)
 }
 
 func parseShape(line string) (shape, error) {
 	var s shape
 	ws := strings.Fields(line)
-	if len(ws) < 2 || (ws[0] != "run" && ws[0] != "probe-recycle" && ws[0] != "probe-persist-close" && ws[0] != "probe-pause-close") {
+	if len(ws) < 2 || (ws[0] != "run" && ws[0] != "probe-recycle" && ws[0] != "probe-persist-close" && ws[0] != "probe-pause-close" && ws[0] != "probe-shared-requests") {
 		return s, fmt.Errorf("not a run line")
 	}
 	s.Kind = ws[0]
@@ -142,6 +146,8 @@ func parseShape(line string) (shape, error) {
 			s.CloseDelay = int(n)
 		case "slowroot":
 			s.SlowRoot = int(n)
+		case "share":
+			s.Share = int(n)
 		default:
 			return s, fmt.Errorf("unknown key %q", kv[0])
 		}
@@ -227,6 +233,26 @@ func (h) Gen(r *hlib.Rand, tier string, scale int, emit func(string)) {
 	}
 	for k := 0; k < nRace; k++ {
 		emit(mk("race", k).line())
+	}
+	// parallel searches whose requests share objects by construction: the package-level standard
+	// aggregations, one SortOrder value, aggregation definitions, query objects. Oracle: every concurrent
+	// result equals the solo result of the same request. share=15: everything but a shared boolean query;
+	// share=17: the standard aggregations plus ONE BooleanQuery object used by all goroutines.
+	for k := 0; k < 1+nRace/40; k++ {
+		for _, mode := range []string{"plain", "race"} {
+			for _, share := range []int{15, 17} {
+				if share == 17 && mode == "race" && !findingListed("race-shared-query-lazy-scorer") {
+					// four query types fill in q.scorer lazily in Searcher(): under -race this line reports that
+					// (real) race every time. As with the other finding-reproducing lines of this repository it
+					// is emitted once known_findings.json lists the finding (any status) or when
+					// VERIF_C15_ALL_FINDINGS=1; the plain line with the same sharing always runs.
+					continue
+				}
+				s := mk(mode, 0)
+				s.Kind, s.Dir, s.Ver, s.Stats, s.P, s.Across, s.Share = "probe-shared-requests", "mem", 1, 0, 4, false, share
+				emit(s.line())
+			}
+		}
 	}
 }
 
@@ -632,6 +658,8 @@ func childMain(line, rdir string) {
 		res = probePersistClose(sh, rdir)
 	} else if sh.Kind == "probe-pause-close" {
 		res = probePauseClose(sh, rdir)
+	} else if sh.Kind == "probe-shared-requests" {
+		res = probeSharedRequests(sh, rdir)
 	} else {
 		res = scenario(sh, rdir)
 	}
@@ -1283,6 +1311,214 @@ func probePauseClose(sh shape, rdir string) result {
 		return result{fmt.Sprintf("lost writer=0 acked_docs=10 found=%d", n), stats}
 	}
 	return result{"ok closed reopened acked_present", stats}
+}
+
+// findingListed: does /verif/known_findings.json (next to the bin directory of this executable) have an
+// entry for property C15 with this signature?
+func findingListed(sig string) bool {
+	if os.Getenv("VERIF_C15_ALL_FINDINGS") == "1" {
+		return true
+	}
+	self, err := os.Executable()
+	if err != nil {
+		return false
+	}
+	b, err := os.ReadFile(filepath.Join(filepath.Dir(filepath.Dir(self)), "known_findings.json"))
+	if err != nil {
+		return false
+	}
+	var kf struct {
+		Findings []struct {
+			Property  string `json:"property"`
+			Signature string `json:"signature"`
+		} `json:"findings"`
+	}
+	if json.Unmarshal(b, &kf) != nil {
+		return false
+	}
+	for _, f := range kf.Findings {
+		if f.Property == "C15" && f.Signature == sig {
+			return true
+		}
+	}
+	return false
+}
+
+// probeSharedRequests: parallel searches on ONE reader and on a second reader of the same writer, built
+// from objects that several requests share. Each of K request kinds (different terms and boosts, so that
+// their scores differ by orders of magnitude) is first run alone; then G goroutines run them concurrently
+// and every result must equal the solo result: hit count, max_score, the top hits with their scores, the
+// term buckets with their nested metric.
+func probeSharedRequests(sh shape, rdir string) result {
+	stats := map[string]int{}
+	w, err := bluge.OpenWriter(bluge.InMemoryOnlyConfig())
+	if err != nil {
+		return result{"open-error", stats}
+	}
+	r := hlib.NewRand(sh.Seed)
+	const numDocs = 2500
+	b := bluge.NewBatch()
+	for i := 0; i < numDocs; i++ {
+		id := fmt.Sprintf("d%05d", i)
+		body := "common words here"
+		if i%3 == 0 {
+			body += " " + vocab[r.Intn(len(vocab))]
+		}
+		b.Insert(bluge.NewDocument(id).
+			AddField(bluge.NewTextField("body", body)).
+			AddField(bluge.NewKeywordField("tag", vocab[i%5]).Aggregatable().Sortable()).
+			AddField(bluge.NewNumericField("n", float64(i%17)).Aggregatable()))
+	}
+	if err := w.Batch(b); err != nil {
+		return result{"batch-error", stats}
+	}
+	time.Sleep(100 * time.Millisecond)
+	rd1, err1 := w.Reader()
+	rd2, err2 := w.Reader()
+	if err1 != nil || err2 != nil {
+		return result{"reader-error", stats}
+	}
+	defer func() { _ = rd1.Close(); _ = rd2.Close(); _ = w.Close() }()
+
+	// ---- the objects of a request: either private to the request (solo baseline) or ONE set shared by all
+	// concurrent requests; the shared set is created after the solo runs, so its first use is concurrent
+	type kind struct {
+		term  string
+		boost float64
+	}
+	kinds := []kind{{"common", 1}, {"words", 50}, {"here", 2500}, {"common", 0.02}}
+	type objs struct {
+		order search.SortOrder
+		terms *aggregations.TermsAggregation
+		sum   search.Aggregation
+		termQ []bluge.Query
+		boolQ []bluge.Query
+	}
+	mkObjs := func() *objs {
+		o := &objs{}
+		o.order = search.SortOrder{search.SortBy(search.Field("tag")), search.SortBy(search.DocumentScore()).Desc(), search.SortBy(search.Field("_id"))}
+		o.terms = aggregations.NewTermsAggregation(search.Field("tag"), 5)
+		o.terms.AddAggregation("top", aggregations.Max(search.DocumentScore()))
+		o.sum = aggregations.Sum(search.Field("n"))
+		for _, k := range kinds {
+			o.termQ = append(o.termQ, bluge.NewTermQuery(k.term).SetField("body").SetBoost(k.boost))
+			o.boolQ = append(o.boolQ, bluge.NewBooleanQuery().AddMust(bluge.NewTermQuery(k.term).SetField("body")).AddShould(bluge.NewTermQuery("alpha").SetField("body")).SetBoost(k.boost))
+		}
+		return o
+	}
+	var shared *objs
+	// a request of kind k: always its own request object; with o == nil everything it is made of is private
+	// to it (except the package-level standard aggregations, which are shared by construction)
+	mkReq := func(k int, o *objs) bluge.SearchRequest {
+		if o == nil {
+			o = mkObjs()
+		}
+		var q bluge.Query
+		switch {
+		case sh.Share&16 != 0:
+			q = o.boolQ[k]
+		default:
+			q = o.termQ[k]
+		}
+		req := bluge.NewTopNSearch(4, q)
+		if sh.Share&1 != 0 {
+			req.WithStandardAggregations()
+		}
+		if sh.Share&2 != 0 && k%2 == 1 {
+			req.SortByCustom(o.order)
+		}
+		if sh.Share&4 != 0 {
+			req.AddAggregation("tags", o.terms)
+			req.AddAggregation("sum", o.sum)
+		}
+		return req
+	}
+	run := func(rd *bluge.Reader, k int, o *objs) string {
+		it, err := rd.Search(context.Background(), mkReq(k, o))
+		if err != nil {
+			return "err:" + err.Error()
+		}
+		var sb strings.Builder
+		for {
+			m, err := it.Next()
+			if err != nil {
+				return "err:" + err.Error()
+			}
+			if m == nil {
+				break
+			}
+			fmt.Fprintf(&sb, "%d:%016x,", m.Number, math.Float64bits(m.Score))
+		}
+		ag := it.Aggregations()
+		if sh.Share&1 != 0 {
+			fmt.Fprintf(&sb, " count=%d max=%016x", ag.Count(), math.Float64bits(ag.Metric("max_score")))
+		}
+		if sh.Share&4 != 0 {
+			fmt.Fprintf(&sb, " sum=%016x tags=", math.Float64bits(ag.Metric("sum")))
+			for _, bk := range ag.Buckets("tags") {
+				fmt.Fprintf(&sb, "%s:%d:%016x,", bk.Name(), bk.Count(), math.Float64bits(bk.Metric("top")))
+			}
+		}
+		return sb.String()
+	}
+	solo := make([]string, len(kinds))
+	for k := range kinds {
+		solo[k] = run(rd1, k, nil)
+		if strings.HasPrefix(solo[k], "err:") {
+			return result{"solo-search-error " + strings.ReplaceAll(solo[k], " ", "_"), stats}
+		}
+		if again := run(rd2, k, nil); again != solo[k] {
+			return result{fmt.Sprintf("probe-inadequate solo result of request %d is not reproducible", k), stats}
+		}
+	}
+	shared = mkObjs()
+	if sh.Share&(2|4|8|16) == 0 {
+		shared = nil
+	}
+	const G, rounds = 8, 60
+	var wg sync.WaitGroup
+	var mism uint64
+	var first atomic.Value
+	for g := 0; g < G; g++ {
+		g := g
+		wg.Add(1)
+		go func() {
+			defer wg.Done()
+			defer func() {
+				if e := recover(); e != nil {
+					atomic.AddUint64(&mism, 1)
+					if first.Load() == nil {
+						first.Store(fmt.Sprintf("panic in concurrent search: %v", e))
+					}
+				}
+			}()
+			for i := 0; i < rounds; i++ {
+				k := (g + i) % len(kinds)
+				rd := rd1
+				if g%4 == 3 { // most goroutines share ONE reader, some use a second one
+					rd = rd2
+				}
+				if got := run(rd, k, shared); got != solo[k] {
+					atomic.AddUint64(&mism, 1)
+					if first.Load() == nil {
+						first.Store(fmt.Sprintf("request=%d term=%s boost=%v want=[%s] got=[%s]", k, kinds[k].term, kinds[k].boost, solo[k], got))
+					}
+				}
+			}
+		}()
+	}
+	wg.Wait()
+	stats["api_goroutines"] = G
+	stats["shared_parallel_searches"] = G * rounds
+	stats["shared_mismatches"] = int(mism)
+	if mism > 0 {
+		msg, _ := first.Load().(string)
+		if len(msg) > 900 {
+			msg = msg[:900] + "…"
+		}
+		return result{fmt.Sprintf("concurrent-differs-from-solo n=%d of=%d first: %s", mism, G*rounds, msg), stats}
+	}
+	return result{"ok closed mem-noreopen", stats}
 }
 
 type countDir struct {
